@@ -1,3 +1,5 @@
+import json
+
 from circuits import Component, handler
 from circuits.core import Value
 from circuits.net.events import write
@@ -24,13 +26,24 @@ class Protocol(Component):
             self.__buffer += data
 
         packets = self.__buffer.split(DELIMITER)
+        # what follows the last delimiter may be the beginning of a packet
+        # whose remaining bytes have not been read yet
+        remainder = packets.pop()
         self.__buffer = b''
+
+        if remainder:
+            try:
+                json.loads(remainder.decode('utf-8'))
+            except ValueError:
+                self.__buffer = remainder
+            else:
+                packets.append(remainder)
 
         for packet in packets:
             try:
                 self.__process_packet(packet)
             except ValueError:
-                self.__buffer = packet
+                pass
 
     @handler(channel='node_result', priority=100)
     def result_handler(self, event, *args, **kwargs):
